@@ -51,13 +51,18 @@ def binary(engine, tier, flavour):
 
 def cov_exclude(engine):
     """configurations left out of the -O0 coverage slice (too slow unoptimised)"""
-    return "#huge" if engine.startswith("static_") else ""
+    return "#huge,#enum" if engine.startswith("static_") else ""
 
 
 def R(engine, flavour, cases, **kw):
     d = dict(engine=engine, flavour=flavour, cases=cases)
     d.update(kw)
     return d
+
+
+def Q(engine, flavour, cases, **kw):
+    """quick-tier run of a static engine: the bounded-exhaustive #enum configurations are left to the thorough tier"""
+    return R(engine, flavour, cases, exclude="#enum", **kw)
 
 
 ASSUME_COMMON = [
@@ -70,7 +75,7 @@ ASSUME_COMMON = [
 def pgm_runs(prop, q_cases, t_cases):
     def runs(tier):
         if tier == "quick":
-            return [R("static_pgm", "asan", q_cases), R("static_pgm", "v3", q_cases)]
+            return [Q("static_pgm", "asan", q_cases), Q("static_pgm", "v3", q_cases)]
         return [R("static_pgm", "asan", t_cases), R("static_pgm", "rel", t_cases * 2), R("static_pgm", "v3", t_cases * 2)]
     return runs
 
@@ -109,7 +114,7 @@ PLANS = {
 def variant_runs(engine, q_cases, t_cases):
     def runs(tier):
         if tier == "quick":
-            return [R(engine, "asan", q_cases), R(engine, "v3", q_cases)]
+            return [Q(engine, "asan", q_cases), Q(engine, "v3", q_cases)]
         return [R(engine, "asan", t_cases), R(engine, "rel", t_cases * 2), R(engine, "v3", t_cases * 2)]
     return runs
 
@@ -167,7 +172,7 @@ PLANS["C03"] = dict(
     technique="runtime monitoring: hooked event recorder (points fed to the builder) + exact rational oracle over generated inputs, under AddressSanitizer",
 )
 PLANS["C04"] = dict(
-    runs=lambda tier: seg_runs("C04", 2000, 8000)(tier) + [R("static_pgm", "asan", 150 if tier == "quick" else 1500)],
+    runs=lambda tier: seg_runs("C04", 2000, 8000)(tier) + [(Q if tier == "quick" else R)("static_pgm", "asan", 150 if tier == "quick" else 1500)],
     kinds={"segment_infeasible", "segment_not_maximal", "segment_starts_too_close", "too_many_nonmaximal_segments",
            "segment_count_not_minimal", "segments_count_bound", "level_size_bound", "height_bound", "partition_broken",
            "segments_not_increasing", "recorded_points_not_increasing", "recorder_scopes", "returned_count_mismatch"},
@@ -389,8 +394,8 @@ PLANS["C16"] = dict(
 def c17_runs(tier):
     q = tier == "quick"
     return [
-        R("static_pgm", "asan", 500 if q else 2500), R("static_comp", "asan", 700 if q else 2500),
-        R("static_bucket", "asan", 600 if q else 2500), R("static_ef", "asan", 700 if q else 2500),
+        Q("static_pgm", "asan", 500 if q else 2500), Q("static_comp", "asan", 700 if q else 2500),
+        Q("static_bucket", "asan", 600 if q else 2500), Q("static_ef", "asan", 700 if q else 2500),
         R("segmentation", "asan", 500 if q else 4000), R("dynamic", "asan", 250 if q else 800),
         R("mapped", "asan", 250 if q else 800), R("multidim", "asan", 300 if q else 1000),
         R("copymove", "asan", 210 if q else 2100), R("cinterface", "asan", 300 if q else 2000),
